@@ -4,7 +4,7 @@
 PATCH="$1"; shift
 D=$(mktemp -d /tmp/pyvc-scratch-XXXXXX)
 git -C /repo worktree add -q --detach "$D/repo" HEAD || exit 3
-( cd "$D/repo" && git apply "$PATCH" ) || { echo "patch does not apply"; git -C /repo worktree remove --force "$D/repo"; rm -rf "$D"; exit 3; }
+( cd "$D/repo" && ( git apply "$PATCH" 2>/dev/null || git apply --3way "$PATCH" ) ) || { echo "patch does not apply"; git -C /repo worktree remove --force "$D/repo"; rm -rf "$D"; exit 3; }
 mkdir -p "$D/ev" "$D/rp"
 rc=0
 for P in "$@"; do
